@@ -1,6 +1,7 @@
 mod c01;
 mod c01model;
 mod c02;
+mod c03;
 mod c07;
 mod c09;
 mod c10;
@@ -50,6 +51,7 @@ fn main() {
             match id {
                 "C01" => c01::check(&tier),
                 "C02" => c02::check(&tier),
+                "C03" => c03::check(&tier),
                 "C07" => c07::check(&tier),
                 "C09" => c09::check(&tier),
                 "C10" => c10::check(&tier),
@@ -62,6 +64,7 @@ fn main() {
                 }
             }
         }
+        Some("c03replay") => c03::replay(&args[2]),
         Some("scenario") => {
             // replay helper: run one product-mode scenario file and print the key list of every reply
             let sc: prod::Scenario = serde_json::from_str(&std::fs::read_to_string(&args[2]).expect("scenario file")).expect("scenario json");
